@@ -1420,6 +1420,8 @@ class Interp:
         if name == "power":
             return self.arith(ast.Pow, self.maybe_arr(args[0], n), args[1], n)
         if name == "transpose":
+            if isinstance(args[0], (Poly, Wrapped)):
+                return self.scalar(args[0], n)
             return self.to_arr(args[0], n).T()
         if name == "linalg.norm":
             a = self.to_arr(args[0], n)
